@@ -6,6 +6,7 @@ mod wire;
 
 mod s_acks;
 mod s_api;
+mod s_audit;
 mod s_bytes;
 mod s_delivery;
 mod s_events;
@@ -17,6 +18,20 @@ mod s_timing;
 use vutil::{Args, Report};
 
 fn scenarios(id: &str, args: &Args) -> Option<Vec<explore::Scenario>> {
+    // fixed end-to-end histories that belong to the property (also for properties whose main engine is another one)
+    let extra = s_audit::extra(id);
+    let main = scenarios_main(id, args);
+    match (main, extra.is_empty()) {
+        (None, true) => None,
+        (None, false) => Some(extra),
+        (Some(mut v), _) => {
+            v.extend(extra);
+            Some(v)
+        }
+    }
+}
+
+fn scenarios_main(id: &str, args: &Args) -> Option<Vec<explore::Scenario>> {
     Some(match id {
         "C01" => s_delivery::c01(args),
         "C02" => s_delivery::c02(args),
